@@ -398,7 +398,7 @@ impl Prop for C17 {
         let g = tier.pick(10usize, 14usize);
         (init_strategy(), prop::collection::vec(op_strategy(g), 0..n)).prop_map(|(init, ops)| Case { init, ops }).boxed()
     }
-    fn cases(tier: Tier) -> u32 { tier.pick(40_000, 1_000_000) }
+    fn cases(tier: Tier) -> u32 { tier.pick(300_000, 8_000_000) }
     fn shards(_: Tier) -> usize { 16 }
     fn run(case: &Case, _ctx: &Ctx) -> Outcome { to_outcome(run_case(case)) }
 }
